@@ -39,3 +39,18 @@ _TECH = "contract-based deductive verification: sidecar contracts on the real fu
 for _i in range(1, 21):
     _p(f"C{_i:02d}", "other", _TECH, "", "", f"DESIGN.md §5 C{_i:02d}", "", built=False,
        reason="check not built yet in this round (see DESIGN.md §2.7 build order)")
+
+
+# ---------------------------------------------------------------------------------------------------------------
+_p("C07", "other", _TECH,
+   "Deductive: every function of linalg.py and transformation.py (and the clifford.py functions listed in the evidence) is "
+   "verified against a strongest-postcondition sidecar contract for symbolic sizes/indices (per-row rule, frame, object "
+   "identity), loops by inductive invariants, callers against callee contracts; the per-row rules are proved equal to "
+   "conjugation by the textbook matrices on the complete Pauli domain (L3, exact). Bounded (never counted as proved): "
+   "run-time contract monitors over the 11,520 two-qubit tableaux and random walks up to n=200.",
+   "Trusted: T-stab, T-meas (DESIGN 4.3); assumed numpy API contracts (npapi, listed per run); Python ints = SMT Int; "
+   "functions of clifford.py not yet under contract are covered only by the bounded stand-in (listed in the evidence).",
+   "DESIGN.md §5 C07",
+   "Mixed level: per-function obligations listed in obligation_table are discharged for all inputs (unbounded n); clauses "
+   "without a discharged obligation are decided only by the labelled bounded stand-ins in coverage.bounded.",
+   rule="bounded part: see coverage.bounded[*].bound; a case is non-trivial when the tableau/operation is not the identity case")
